@@ -355,17 +355,35 @@ def c_mobility_tables(site, fx):
                 ix = d
                 continue
         break
-    if find_calls(ix, "knights::knight_attacks"):
-        return n >= 9
-    if find_calls(ix, "magics::bishop_attacks") and find_calls(ix, "magics::rook_attacks"):
-        return n >= 28
-    if find_calls(ix, "magics::bishop_attacks"):
-        return n >= 14
-    if find_calls(ix, "magics::rook_attacks"):
-        return n >= 15
-    if find_calls(ix, "king::king_attacks"):
-        return n >= 9
-    return False
+    # upper bound of the popcount, computed over the bitboard expression (a `&` takes the smaller bound, a `|` or `^` adds)
+    d = deep_strip(ix)
+    while isinstance(d, tuple) and d and d[0] == "cast":
+        d = deep_strip(d[1])
+    if not (isinstance(d, tuple) and d and d[0] == "call" and str(d[1]).endswith("Bitboard::count")):
+        return False
+    ub = popcount_ub(d[2][0])
+    return ub < n
+
+
+ATTACK_SET_MAX = {"knight_attacks": 8, "king_attacks": 8, "bishop_attacks": 13, "rook_attacks": 14, "pawn_attacks": 2, "pawn_attack": 2}
+
+
+def popcount_ub(e):
+    """Upper bound of the number of squares in a bitboard expression: attack sets by piece geometry, `a & b` <= min, `a | b` and
+    `a ^ b` <= sum, anything else (complements, board sets, mutated locals - which expression expansion shows as their
+    initial value) 64."""
+    d = deep_strip(e)
+    if isinstance(d, tuple) and d and d[0] == "call" and isinstance(d[1], str):
+        last = d[1].split("::")[-1]
+        if "movegen::tables" in d[1] and last in ATTACK_SET_MAX:
+            return ATTACK_SET_MAX[last]
+        if d[1].endswith("BitAnd>::bitand") and len(d[2]) == 2:
+            return min(popcount_ub(d[2][0]), popcount_ub(d[2][1]))
+        if (d[1].endswith("BitOr>::bitor") or d[1].endswith("BitXor>::bitxor")) and len(d[2]) == 2:
+            return min(64, popcount_ub(d[2][0]) + popcount_ub(d[2][1]))
+        if d[1].endswith("Square::bb"):
+            return 1
+    return 64
 
 
 def c_see(site, fx):
